@@ -14,7 +14,8 @@
 //	    -x      RemoveNode(x)
 //	    @g:n:r,g:n:r…  OnInit([group]) with a registry listing these groups (`@-` = none; `~g:n:r` / `!g` entries invalid)
 //	  output per sequence: for every group named anywhere on the line (+ "zz") and every shard 0..max ShardNum on the line:
-//	    g:s=<r0>,<r1>,<r2>,<r3>   (node name, U = unknown shard, N = no nodes), then S=<String() entries sorted by key>
+//	    g:s=<r0>,<r1>,<r2>,<r3>/<LocateAll(g,s,3) joined by +>   (node name, U = unknown shard, N = no nodes),
+//	    then S=<String() entries sorted by key>. `+`/`*`/`-` with an empty name are events for a node without a name.
 //	shard <n> <keyhex>                     Hash, ShardID(key,n), TraceShardID(key,n)
 //	loc <n> <k|-> <subjecthex> <TV>…       Locate/ApplyLocators over two different tag-family layouts;
 //	                                      sharding key = first k entity tags (`-` = no sharding-key locator)
@@ -32,6 +33,7 @@ import (
 	databasev1 "github.com/apache/skywalking-banyandb/api/proto/banyandb/database/v1"
 	modelv1 "github.com/apache/skywalking-banyandb/api/proto/banyandb/model/v1"
 	"github.com/apache/skywalking-banyandb/banyand/internal/verifdrv/drv"
+	liaisongrpc "github.com/apache/skywalking-banyandb/banyand/liaison/grpc"
 	"github.com/apache/skywalking-banyandb/banyand/metadata"
 	"github.com/apache/skywalking-banyandb/banyand/metadata/schema"
 	"github.com/apache/skywalking-banyandb/banyand/queue/pub"
@@ -42,6 +44,9 @@ import (
 )
 
 const maxReplicaProbe = 4
+
+// copies asked from LocateAll (replicas+1 with the generator's maximum of 2 replicas)
+const locateAllCopies = 3
 
 // fakeRepo serves only GroupRegistry().ListGroup (all OnInit needs); any other call panics on the nil embedded interface.
 type fakeRepo struct {
@@ -109,14 +114,19 @@ func runSeq(withSelector bool, events []string, groups []string, maxShard uint32
 		s.SetNodeSelector(ls)
 	}
 	h := s.(schema.EventHandler)
+	// node events travel through the liaison's clusterNodeService (banyand/liaison/grpc/node.go), as in a cluster
+	reg, nh := liaisongrpc.VerifC16NodeRegistry(s)
+	nodeEv := func(name, role string) schema.Metadata {
+		return schema.Metadata{TypeMeta: schema.TypeMeta{Kind: schema.KindNode, Name: name}, Spec: dnode(name, role)}
+	}
 	for i, ev := range events {
 		switch ev[0] {
 		case '+':
-			s.AddNode(dnode(ev[1:], "data"))
+			nh.OnAddOrUpdate(nodeEv(ev[1:], "data"))
 		case '*':
-			s.AddNode(dnode(ev[1:], "meta"))
+			nh.OnAddOrUpdate(nodeEv(ev[1:], "meta"))
 		case '-':
-			s.RemoveNode(dnode(ev[1:], "data"))
+			nh.OnDelete(nodeEv(ev[1:], "data"))
 		case '^':
 			h.OnDelete(schema.Metadata{TypeMeta: schema.TypeMeta{Kind: schema.KindGroup}, Spec: &commonv1.Group{Metadata: &commonv1.Metadata{Name: ev[1:]}}})
 		case '&':
@@ -143,7 +153,7 @@ func runSeq(withSelector bool, events []string, groups []string, maxShard uint32
 		for sh := uint32(0); sh <= maxShard; sh++ {
 			rs := make([]string, 0, maxReplicaProbe)
 			for r := uint32(0); r < maxReplicaProbe; r++ {
-				n, err := s.Pick(g, "", sh, r)
+				n, err := reg.Locate(g, "", sh, r)
 				switch {
 				case err == nil:
 					rs = append(rs, n)
@@ -155,7 +165,18 @@ func runSeq(withSelector bool, events []string, groups []string, maxShard uint32
 					rs = append(rs, "ERR")
 				}
 			}
-			out = append(out, fmt.Sprintf("%s:%d=%s", g, sh, strings.Join(rs, ",")))
+			all, err := reg.LocateAll(g, sh, locateAllCopies)
+			la := strings.Join(all, "+")
+			switch {
+			case err == nil:
+			case strings.Contains(err.Error(), "no nodes available"):
+				la = "N"
+			case strings.Contains(err.Error(), "unknown shard"):
+				la = "U"
+			default:
+				la = "ERR"
+			}
+			out = append(out, fmt.Sprintf("%s:%d=%s/%s", g, sh, strings.Join(rs, ","), la))
 		}
 	}
 	out = append(out, "S="+stringer(s))
@@ -350,13 +371,19 @@ func handle(f []string) string {
 		if k > len(tvs) {
 			return "bad-op"
 		}
-		// the key that Locate hashes, recomputed through the exported pieces, for the model to compare
+		// the key that Locate hashes, recomputed through the exported pieces (for the model to compare), and the
+		// shard ShardID gives for the routing key directly (entity, or subject + sharding-key tags)
 		evs := append(pbv1.EntityValues{pbv1.EntityStrValue(subject)}, tvs...)
 		ent, err := evs.ToEntity()
 		if err != nil {
 			return "ERR"
 		}
-		return fmt.Sprintf("%s %s %s", drv.Hex(ent.Marshal()), locate(0, subject, tvs, k, n), locate(1, subject, tvs, k, n))
+		rk := ent
+		if k >= 0 {
+			rk = ent[:k+1]
+		}
+		return fmt.Sprintf("%s %s %s %s", drv.Hex(ent.Marshal()), locate(0, subject, tvs, k, n), locate(1, subject, tvs, k, n),
+			shardOrErr(partition.ShardID(rk.Marshal(), n)))
 	}
 	return "bad-op"
 }
